@@ -536,9 +536,24 @@ impl World {
                 }
             }
             if matches!(ctx, Ctx::Deliver { .. }) && c1.gc > gc0 {
-                resets += 1;
-                if c0.is_none() {
-                    self.stats.inc("resets_of_just_created_copy");
+                // a reset is observed as: the watermark rose to the watermark of a node delta that starts from version 0,
+                // and no entry of the old copy survived that the delta does not itself carry (the copy was rebuilt)
+                let rebuilt = match delta_for(m) {
+                    Some(nd) if nd.from == 0 && nd.last_gc == c1.gc => {
+                        let survivors = c0.map(|c0| c0.kvs.iter().filter(|(k, e0)| c1.kvs.get(*k).map(|e1| e1.ver == e0.ver).unwrap_or(false) && !nd.kvs.iter().any(|kv| &kv.key == *k && kv.version == e0.ver)).count()).unwrap_or(0);
+                        survivors == 0
+                    }
+                    _ => false,
+                };
+                if rebuilt {
+                    resets += 1;
+                    if c0.is_none() {
+                        self.stats.inc("resets_of_just_created_copy");
+                    }
+                } else {
+                    // the watermark of a copy rose while processing a message, but not through a reset: no property
+                    // forbids that by itself (exactness and the single-writer rule are judged by their own monitors)
+                    self.stats.inc("watermark_rises_without_reset");
                 }
             }
             if m == me {
